@@ -171,3 +171,13 @@ fn char_is_ascii_digit_is_0_to_9() {
     let c: char = kani::any();
     assert!(c.is_ascii_digit() == ('0' <= c && c <= '9'));
 }
+
+/// unit `toknum`: the assumed specifications of `char::is_ascii`, `is_ascii_alphanumeric`, `is_ascii_alphabetic` (every char)
+#[kani::proof]
+fn char_ascii_classes() {
+    let c: char = kani::any();
+    let alpha = ('a' <= c && c <= 'z') || ('A' <= c && c <= 'Z');
+    assert!(c.is_ascii() == ((c as u32) < 128));
+    assert!(c.is_ascii_alphabetic() == alpha);
+    assert!(c.is_ascii_alphanumeric() == (alpha || ('0' <= c && c <= '9')));
+}
